@@ -68,7 +68,7 @@ def main():
                                 cwd=wt, env=env, timeout=5400)
                 last = [l for l in out.splitlines() if re.search(r"\d+ (passed|failed|error)", l)]
                 res["suite"] = {"exit": rc, "secs": round(t), "summary": last[-1] if last else out[-300:],
-                                "failed": [l for l in out.splitlines() if l.startswith("FAILED")][:10]}
+                                "failed": [l for l in out.splitlines() if l.startswith(("FAILED", "ERROR"))][:10], "tail": out[-2500:] if rc else ""}
         ok = (res["demo_clean"]["exit"] == 0 and res.get("apply", {}).get("exit") == 0 and res.get("import") == 0
               and res.get("demo_patched", {}).get("exit", 0) != 0 and (not suite or res["suite"]["exit"] == 0))
         res["confirmed"] = bool(ok)
